@@ -524,7 +524,7 @@ static void loop_end(int rc) {
         else sl.pending_exact = false;
         for (auto &sd : W->sends)
             for (int e : sd.eligible)
-                if (e == sl.idx && !sd.delivered.count(e) && !sd.dead.count(e)) sd.unknown.insert(e);
+                if (e == sl.idx && !sd.delivered.count(e) && !sd.dead.count(e) && (sl.st == ST_PAUSED || sl.last_non_running_gseq >= sd.gseq)) sd.unknown.insert(e);   // (RUNNING ever since the send: no grey zone for this message)
     }
     orc_loop_end(lr);
     // model: a non-persistent context left without modules is released when the loop returns
